@@ -19,7 +19,7 @@ META = {
         'membership test (IN list / VALUES CTE used only with IN); rows inserted by executemany. Sanitizers: sorted() '
         'without key, set(), len/sum/any/all, min/max without key, membership. R2: no function outside the connection '
         'pool / configuration mutates module-level state (read-only calls do not change later results); the '
-        'who-may-write rule over SQL is C05-R3. R7: keyless sorted()/min()/max() over a set counts as a sanitiser only when the elements are not database entities (entities compare by rowid and all placeholder synsets share one, so ties keep set order). R4 no unintended sharing of mutable objects between results. R5 no one-shot iterator (map, filter, zip, generator) is kept in an attribute. R8 no clock / process / random source and no time-stamping writer (gzip in a writing mode without mtime, tar / zip writers), the builtin hash() only inside __hash__. R9 no repr / str of an object whose class defines neither (memory address in a message).'),
+        'who-may-write rule over SQL is C05-R3. R7: keyless sorted()/min()/max() over a set counts as a sanitiser only when the elements are not database entities (entities compare by rowid and all placeholder synsets share one, so ties keep set order). R4 no unintended sharing of mutable objects between results. R5 no one-shot iterator (map, filter, zip, generator) is kept in an attribute. R8 no clock / process / random source and no time-stamping writer (gzip in a writing mode without mtime, tar / zip writers), the builtin hash() only inside __hash__. R9 no repr / str of an object whose class defines neither (memory address in a message). R10 default argument values are constants (no iterator / list / dict / set evaluated once at import).'),
     'decides': ['no hash-seed-ordered value reaches a result, a file or a position-sensitive SQL parameter',
                 'no query path writes module-level state', 'no one-shot iterator is kept in an attribute'],
     'not_decided': ['order of rows SQLite returns for queries without ORDER BY (taken as a function of content)',
